@@ -411,3 +411,23 @@ Print Assumptions c17_bv_zext_pred_identity.
 Theorem c17_arith_split_nary_identity : ltac:(let t := type of rw_arith_split_nary_identity in exact t).
 Proof. exact rw_arith_split_nary_identity. Qed.
 Print Assumptions c17_arith_split_nary_identity.
+
+(* the SORT half for the two substitution-based mutators (Props/C17Sort.v): a substitution lemma for Spec/Typing.type_of
+   between two environments; the side conditions are those of the value theorems with "term positions" read for type_of
+   (sort positions of quantifier binders excluded too), each shown necessary by an Example there *)
+From DD Require Import Props.C17Sort.
+Theorem c17_let_subst_sort : ltac:(let t := type of rw_let_subst_sort in exact t).
+Proof. exact rw_let_subst_sort. Qed.
+Print Assumptions c17_let_subst_sort.
+Theorem c17_let_subst_sort_let_side : ltac:(let t := type of rw_let_subst_sort_let_side in exact t).
+Proof. exact rw_let_subst_sort_let_side. Qed.
+Print Assumptions c17_let_subst_sort_let_side.
+Theorem c17_inline_sort : ltac:(let t := type of rw_inline_sort in exact t).
+Proof. exact rw_inline_sort. Qed.
+Print Assumptions c17_inline_sort.
+Theorem c17_inline_same_sort : ltac:(let t := type of rw_inline_same_sort in exact t).
+Proof. exact rw_inline_same_sort. Qed.
+Print Assumptions c17_inline_same_sort.
+Theorem c17_type_of_coincidence : ltac:(let t := type of type_of_coincidence in exact t).
+Proof. exact type_of_coincidence. Qed.
+Print Assumptions c17_type_of_coincidence.
